@@ -1,9 +1,11 @@
 #!/venv/bin/python
 """C14 oracle stream (sixth round): DERIVED gate definitions, Python-level TRAPS, FAILURE-then-valid histories, RE-ENTRANCY.
 
-    PYTHONPATH=/verif /venv/bin/python /verif/harness/agents/c14_traps.py [--seed 0] [--n 400] [--thorough]
+    PYTHONPATH=/verif /venv/bin/python /verif/harness/agents/c14_traps.py [--seed 0] [--n 1500] [--thorough]
 
-Recommended: quick n=400, thorough n=1500 (see the final lines of `main` output for timings).
+Recommended: quick n=1500 (2-3 pipelines per program, ~4 400 pipeline runs + ~1 000 direct calls, 5-8 s on an idle machine),
+thorough n=4000 (every applicable pipeline, up to 17 per program, ~60 000 runs, 60-70 s on an idle machine).
+`n` = number of cases; streams by weight: derived 10, edge 4, shared 3, atomic 3.
 
 Importable: `run(seed, n, driver, thorough) -> dict`, `replay(case, driver) -> dict` (AGENT_CONVENTIONS.md, "Diff-script
 protocol").  Oracles only (`"corr": {}`): the Lean driver is not used.
@@ -46,6 +48,10 @@ every circuit once from fresh inputs, and hand the builder string constants.  Th
   BEFORE a valid one, run back to back on the SAME gate container, the SAME parsed circuit (members that differ only in the
   override), the SAME emulator backend object; the first step is repeated at the end.  Every step is judged on its own
   against the reference: a failed call must leave nothing behind.  Programs with TWO defects.
+
+  SHARED (stream `shared`): one statement in two scopes that give it different meanings (a macro parameter bearing the name
+  of a let, two macros with one body and swapped parameters, ...), so that with the run-time-string entry the equal
+  sub-expressions are one Python object placed at two positions.
 
   DIRECT CALLS (oracle `definition_call_checked`): every derived definition is called as `g(*args)` / `g.call(**kwargs)`
   with the argument lists above (qubits from a Register object): JaqalError iff the reference says the list does not fit.
@@ -1144,7 +1150,7 @@ def replay(case: dict, driver: str = DEFAULT_DRIVER) -> dict:
 def main():
     ap = argparse.ArgumentParser()
     ap.add_argument("--seed", type=int, default=0)
-    ap.add_argument("--n", type=int, default=400)
+    ap.add_argument("--n", type=int, default=1500)
     ap.add_argument("--thorough", action="store_true")
     ap.add_argument("--driver", default=DEFAULT_DRIVER)
     a = ap.parse_args()
